@@ -102,14 +102,19 @@ structure AD where
   reactors : Option (List V)
   deriving Repr, DecidableEq
 
+/-- the values `Reactors.from_tags` puts into the set: all of them, or (after the fix that made loading of damaged files robust)
+    only those `int(x, 16)` accepts; which one is regenerated from the source (`Gen.reactorsDropInvalid`) -/
+def reactorVals (vs : List V) : List V :=
+  if reactorsDropInvalid then vs.filter (fun v => (hexKeyV v).isSome) else vs
+
 /-- one iteration of `DXFEntity.setup_app_data`; `g` = one `ExtendedTags.appdata` entry (start tag … closing tag) -/
 def setupAppStep (a : AD) (g : List Tag) : Except Err AD :=
   match g with
   | [] => .ok a
   | st :: body =>
     if st.val == .str acadReactors then
-      -- Reactors.from_tags: set(tag.value for tag in tags[1:-1])
-      .ok { a with reactors := some (dedup (body.dropLast.map (·.val))) }
+      -- Reactors.from_tags: set(tag.value for tag in tags[1:-1]) [if the value is a valid handle: Gen.reactorsDropInvalid]
+      .ok { a with reactors := some (dedup (reactorVals (body.dropLast.map (·.val)))) }
     else if st.val == .str acadXDictionary then
       -- ExtensionDict.from_tags
       match body with
@@ -205,6 +210,21 @@ def exportEnt (alive : V → Bool) (e : Ent) : Except Err (List Tag) :=
     .ok (entityOrder.flatMap fun
       | .base => ⟨structureMarker, e.typ⟩ :: baseOrder.flatMap (basePart alive e re)
       | .entity => storageOrder.flatMap (storagePart e)
+      | .xdata => xdataOut e)
+
+/-- `DXFEntity.export_base_class` (session 3: the part shared by every class with the generic export) -/
+def baseOut (alive : V → Bool) (e : Ent) (re : List Tag) : List Tag :=
+  ⟨structureMarker, e.typ⟩ :: baseOrder.flatMap (basePart alive e re)
+
+/-- `DXFEntity.export_dxf` of a class that keeps the generic base class and XDATA handling: `body` = what its `export_entity`
+    writes -/
+def exportGeneric (alive : V → Bool) (body : List Tag) (e : Ent) : Except Err (List Tag) :=
+  match reactorsPart e.reactors with
+  | .error x => .error x
+  | .ok re =>
+    .ok (entityOrder.flatMap fun
+      | .base => baseOut alive e re
+      | .entity => body
       | .xdata => xdataOut e)
 
 /-! ## XRECORD (entities/dxfobj.py): base class and XDATA by the generic code above, the payload by `XRecord` -/
